@@ -443,10 +443,32 @@ func entryJobs(thorough, lite bool) []job {
 	anchProf := profile{name: "ANCH {a,\\n,c}", m: map[rune]rune{'b': '\n'}, input: []rune{'a', 'b', 'c'}}
 	corpus := corpusPatterns()
 	bal := balFamily()
+	// narrow, shortcut-directed families first (an internal deadline then only ever cuts breadth)
+	lim := limFamily()
+	add("LIM", lim, "", profCorpus, 2)
+	add("LIM", lim, "R", profCorpus, 2)
+	add("ALTB", altBranchFamily(false), "", profP0, 3)
+	for _, pr := range []profile{profP0, profP2, profP4} {
+		add("BAL", bal, "", pr, 5)
+		add("BAL", bal, "R", pr, 5)
+	}
+	add("CORPUS", corpus, "", profCorpus, 3)
+	add("CORPUS", corpus, "R", profCorpus, 3)
+	add("CORPUS", corpus, "G", profCorpus, 3)
+	add("ANCH<=4", anch, "", anchProf, 4)
+	add("ANCH<=4", anch, "m", anchProf, 3)
+	add("ANCH<=4", anch, "R", anchProf, 3)
+	add("LOOP", loopF, "", profP0, 2)
+	if lite {
+		add("LOOK", lookF, "", profP0, 2)
+	} else {
+		add("LOOK", lookF, "", profP0, 3)
+	}
 	if lite {
 		// C02 makes ~45 API calls per input; its quick tier uses the smaller bounds
-		add("CORE<=4", core4, "", profP0, 3)
-		add("CORE<=4", core4, "", profP45, 3)
+		add("CORE<=4", core4, "", profP0, 2)
+		add("CORE<=4", core4, "", profP45, 2)
+		add("CORE<=3", core3, "", profP0, 4)
 		add("CORE<=3", core3, "R", profP0, 4)
 		add("CORE<=3", core3, "", profP2, 4)
 		add("CORE<=3", core3, "", profP5, 4)
@@ -465,29 +487,13 @@ func entryJobs(thorough, lite bool) []job {
 		if o.has('i') {
 			pr = profP0i
 		}
-		add("CORE<=3", core3, o, pr, 4)
+		if lite {
+			add("CORE<=3", core3, o, pr, 3)
+		} else {
+			add("CORE<=3", core3, o, pr, 4)
+		}
 		add("CORE<=3", core3, o, profP45, 3)
 	}
-	add("LOOP", loopF, "", profP0, 2)
-	if lite {
-		add("LOOK", lookF, "", profP0, 2)
-	} else {
-		add("LOOK", lookF, "", profP0, 3)
-	}
-	add("ANCH<=4", anch, "", anchProf, 4)
-	add("ANCH<=4", anch, "m", anchProf, 3)
-	add("ANCH<=4", anch, "R", anchProf, 3)
-	for _, pr := range []profile{profP0, profP2, profP4} {
-		add("BAL", bal, "", pr, 5)
-		add("BAL", bal, "R", pr, 5)
-	}
-	add("CORPUS", corpus, "", profCorpus, 3)
-	add("CORPUS", corpus, "R", profCorpus, 3)
-	add("CORPUS", corpus, "G", profCorpus, 3)
-	lim := limFamily()
-	add("LIM", lim, "", profCorpus, 2)
-	add("LIM", lim, "R", profCorpus, 2)
-	add("ALTB", altBranchFamily(false), "", profP0, 3)
 	if thorough {
 		core5 := coreFamily("CORE", grammarCore(), 5)
 		add("CORE<=5", core5, "", profP0, 3)
